@@ -409,7 +409,8 @@ func main() {
 		}
 	}
 	nonEmpty := len(boxes)
-	boxes = append(boxes, orb.MultiPoint{}.Bound(), orb.Bound{Min: orb.Point{2, 0}, Max: orb.Point{0, 2}})
+	boxes = append(boxes, orb.MultiPoint{}.Bound(), orb.Bound{Min: orb.Point{2, 0}, Max: orb.Point{0, 2}},
+		orb.Bound{Min: orb.Point{0, 2}, Max: orb.Point{2, 0}}, orb.Bound{Min: orb.Point{2, 2}, Max: orb.Point{0, 0}}) // inverted on x, on y, on both
 	same := func(a, b orb.Bound) bool { return a == b || (a.IsEmpty() && b.IsEmpty()) }
 	tight := func(bs ...orb.Bound) (orb.Bound, bool) {
 		var mp orb.MultiPoint
@@ -535,7 +536,7 @@ func main() {
 		})
 	}
 	orb.DefaultRoundingFactor = 1e6
-	r.Explore("bound-lattice", fmt.Sprintf("all triples of %d boxes (%d non-empty over corners {-3,0,1,2}^2, the empty sentinel, an inverted box) and all 36 lattice points: union commutative / associative / idempotent / tight, extend, contains, intersects, clip.Bound-free absorption", len(boxes), nonEmpty),
+	r.Explore("bound-lattice", fmt.Sprintf("all triples of %d boxes (%d non-empty over corners {-3,0,1,2}^2, the empty sentinel, boxes inverted on x / on y / on both) and all 36 lattice points: union commutative / associative / idempotent / tight, extend, contains, intersects, clip.Bound-free absorption", len(boxes), nonEmpty),
 		mc.Opts{MaxDev: -1, Split: 2}, func(c *mc.Ctx) {
 			a, b, d := boxes[c.Choose(len(boxes))], boxes[c.Choose(len(boxes))], boxes[c.Choose(len(boxes))]
 			desc := fmt.Sprintf("a=%v b=%v c=%v", a, b, d)
